@@ -7,6 +7,7 @@ import (
 	"errors"
 	"fmt"
 	"os"
+	"runtime/debug"
 	"strings"
 
 	"github.com/opencontainers/go-digest"
@@ -27,6 +28,24 @@ var linked = map[string]bool{"sha256": true, "sha384": true, "sha512": true}
 // availabilityCases tells the model which algorithms are available ("A" lines configure the
 // model runner) and fails the run (exit 3, layer R) when the binary does not link what it claims.
 func availabilityCases() {
+	// the model of Digest.Validate is of the pinned go-digest v1.0.0 (three algorithms, fixed
+	// table): any other version must be reviewed, not silently accepted
+	if bi, ok := debug.ReadBuildInfo(); ok {
+		for _, m := range bi.Deps {
+			if m.Path == "github.com/opencontainers/go-digest" {
+				v := m.Version
+				if m.Replace != nil {
+					v = m.Replace.Version
+				}
+				if v != "v1.0.0" {
+					fmt.Fprintf(os.Stderr, "go-digest is %s, the model (alg_table, Digest.Validate) is of v1.0.0: review Model/Reference.v\n", v)
+					run.Finish()
+					os.Exit(3)
+				}
+				run.Count("go_digest_v1.0.0")
+			}
+		}
+	}
 	for _, a := range []string{"sha256", "sha384", "sha512"} {
 		got := digest.Algorithm(a).Available()
 		if got != linked[a] {
